@@ -67,7 +67,7 @@ func c07Reader() {
 	}
 	n := 2 + dsim.Choose(5)
 	if dsim.Choose(4) == 3 {
-		n = 6 + dsim.Choose(60)
+		n = 6 + dsim.Choose(depth(60, 300))
 	}
 	var data []byte
 	var tss []uint64
